@@ -509,7 +509,8 @@ class TokenProvider:
         self._config = config
 
     def provide(self):
-        return [tuple(kv) for kv in json.loads(self._config.C08_MD)]
+        md = [tuple(kv) for kv in json.loads(self._config.C08_MD)]
+        return tuple(md) if self._config.C08_MD_FORM == 'tuple' else md
 
 
 class Script:
@@ -633,7 +634,7 @@ def run_auth(case):
     from deep.push.push_service import PushService
     from deep.api.resource import Resource
     cfg = case['cfg']
-    custom = {'C08_MD': json.dumps(cfg.get('custom_md') or [])}
+    custom = {'C08_MD': json.dumps(cfg.get('custom_md') or []), 'C08_MD_FORM': cfg.get('md_form', 'list')}
     if cfg.get('provider') is not None:
         custom['SERVICE_AUTH_PROVIDER'] = cfg['provider']
     for k, ck in (('username', 'SERVICE_USERNAME'), ('password', 'SERVICE_PASSWORD')):
@@ -857,7 +858,8 @@ def oracle(case, obs):
         elif w['kind'] == 'dropped':
             v.append(f'operation {i} ({w["op"]}) sent nothing')
         else:
-            if case.get('transport') == 'grpc' and w['metadata'] != exp:
+            # (through HTTP/2 the order between DIFFERENT keys is not part of what gRPC guarantees: multiset there)
+            if case.get('transport') == 'grpc' and sorted(w['metadata']) != sorted(exp):
                 v.append(f'operation {i} ({w["op"]}): the server received metadata {w["metadata"]}, the provider '
                          f'supplies {exp}')
             elif case.get('transport') == 'grpc':
@@ -935,7 +937,8 @@ def compare(case, obs, resp):
             continue
         if bk == 'dropped':
             continue
-        if a['metadata'] != b['metadata']:
+        if (sorted(a['metadata'] or []) != sorted(b['metadata'] or [])) if case.get('transport') == 'grpc' \
+                else a['metadata'] != b['metadata']:
             d.append(f'op {i}: metadata model {a["metadata"]} implementation {b["metadata"]}')
         if bk == 'polled':
             ra, rb = dict(a['request']), dict(b['request'])
@@ -1102,8 +1105,13 @@ def gen_auth(rng, stream='main'):
         cfg['provider'] = 'deep.api.auth.BasicAuthProvider'
     else:
         cfg['provider'] = 'props.c08.TokenProvider'
+        # gRPC metadata is a multimap: a key may repeat, and the order is the provider's
         cfg['custom_md'] = rng.choice([[['authorization', 'Bearer tok']], [], [['x-api-key', 'k'], ['x-org', 'é']],
-                                       [['authorization', 'Basic%20zzz']]])
+                                       [['authorization', 'Basic%20zzz']],
+                                       [['x-scope-orgid', 'a'], ['x-scope-orgid', 'b']],
+                                       [['x-scope-orgid', 'b'], ['authorization', 'Bearer t'], ['x-scope-orgid', 'a']],
+                                       [['z-last', '1'], ['a-first', '2'], ['z-last', '1']]])
+        cfg['md_form'] = rng.choice(['list', 'tuple'])
     for k in ('username', 'password'):
         r = rng.random()
         if r < 0.65:
@@ -1117,7 +1125,8 @@ def gen_auth(rng, stream='main'):
     if stream == 'main' and rng.random() < 0.25:
         # the provider cannot answer the first k times it is asked (token not there yet), then recovers
         cfg['provider'] = 'props.c08.ScriptedProvider'
-        cfg['custom_md'] = rng.choice([[['authorization', 'Bearer s3cr3t'], ['x-tenant', 'acme']], [['authorization', 'Bearer t']]])
+        cfg['custom_md'] = rng.choice([[['authorization', 'Bearer s3cr3t'], ['x-tenant', 'acme']], [['authorization', 'Bearer t']],
+                                       [['x-scope-orgid', 'a'], ['x-scope-orgid', 'b']]])
         cfg['fail_first'] = rng.choice([0, 1, 1, 2, 3])
         case['ops'] = [rng.choice(['poll', 'push']) for _ in range(rng.randint(2, 6))]
         if rng.random() < 0.35:
@@ -1213,6 +1222,11 @@ def corpus():
         {'kind': 'auth', 'stream': 'main', 'cfg': {'provider': 'props.c08.TokenProvider',
                                                    'custom_md': [['authorization', 'Bearer t']]},
          'ops': ['push', 'poll'], 'resource': [],
+         'snaps': [{'tp_id': 'tp0', 'ts': 1_700_000_000_000_000_000, 'attrs': [], 'resource': []}]},
+        {'kind': 'auth', 'stream': 'main', 'cfg': {'provider': 'props.c08.TokenProvider', 'md_form': 'tuple',
+                                                   'custom_md': [['x-scope-orgid', 'a'], ['authorization', 'Bearer t'],
+                                                                 ['x-scope-orgid', 'b']]},
+         'ops': ['poll', 'push'], 'resource': [],
          'snaps': [{'tp_id': 'tp0', 'ts': 1_700_000_000_000_000_000, 'attrs': [], 'resource': []}]},
         {'kind': 'auth', 'stream': 'main', 'transport': 'grpc',
          'cfg': {'provider': 'deep.api.auth.BasicAuthProvider', 'username': 'bob', 'password': 'obo'},
